@@ -187,6 +187,15 @@ Theorem C16_merge_tag_complete_partial :
 Proof. exact merge_tag_complete_groupings. Qed.
 Print Assumptions C16_merge_tag_complete_partial.
 
+(* staged merges: a block of consecutive jobs (chunks a .. a + sum ns - 1 of ndep) goes under the ordinary
+   key only if it is the whole dependency; leading, tail and middle blocks get a tagged key *)
+Theorem C16_staged_merge_plain_only_if_full :
+  forall ndep a ns,
+  Forall (fun n => (0 < n)%nat) ns -> ns <> [] -> (a + list_sum ns <= ndep)%nat ->
+  merge_tag ndep (groups_of a ns) = Ok None -> a = 0%nat /\ list_sum ns = ndep.
+Proof. exact merge_tag_block_plain_only_if_full. Qed.
+Print Assumptions C16_staged_merge_plain_only_if_full.
+
 Theorem C16_merge_tag_complete_refuted :
   exists ndep groups i, merge_tag ndep groups = Ok None /\ (i < ndep)%nat /\ ~ In i (concat groups).
 Proof. exact merge_hole_witness. Qed.
